@@ -179,6 +179,27 @@ const std::string MATH_RESET =
     "<math xmlns=\"http://www.w3.org/1998/Math/MathML\" xmlns:cellml=\"http://www.cellml.org/cellml/2.0#\">\n"
     "          <cn cellml:units=\"mV\">0</cn>\n"
     "        </math>";
+// every construct for which generator.cpp builds temporary AST nodes or looks at parent(): root with a degree other than 2
+// (a number, and a log with a logbase), log with a logbase other than 10, power (general, square, square root), divide by a
+// log-with-base, piecewise (nested), min/max with 2 and 3 operands; valid and analysable (one ODE + algebraic equations)
+const std::string MATH_X =
+    "<math xmlns=\"http://www.w3.org/1998/Math/MathML\" xmlns:cellml=\"http://www.cellml.org/cellml/2.0#\">\n"
+    "  <apply><eq/><apply><diff/><bvar><ci>t</ci></bvar><ci>z</ci></apply><apply><plus/><ci>r1</ci><ci>l1</ci></apply></apply>\n"
+    "  <apply><eq/><ci>r1</ci><apply><root/><degree><apply><log/><logbase><ci>b</ci></logbase><ci>x</ci></apply></degree><ci>y</ci></apply></apply>\n"
+    "  <apply><eq/><ci>r2</ci><apply><root/><degree><cn cellml:units=\"dimensionless\">3</cn></degree><apply><plus/><ci>x</ci><ci>y</ci></apply></apply></apply>\n"
+    "  <apply><eq/><ci>r3</ci><apply><root/><degree><apply><plus/><ci>b</ci><cn cellml:units=\"dimensionless\">1</cn></apply></degree><ci>x</ci></apply></apply>\n"
+    "  <apply><eq/><ci>r4</ci><apply><root/><ci>x</ci></apply></apply>\n"
+    "  <apply><eq/><ci>l1</ci><apply><log/><logbase><cn cellml:units=\"dimensionless\">3</cn></logbase><ci>x</ci></apply></apply>\n"
+    "  <apply><eq/><ci>l2</ci><apply><divide/><ci>y</ci><apply><log/><logbase><ci>b</ci></logbase><ci>x</ci></apply></apply></apply>\n"
+    "  <apply><eq/><ci>p1</ci><apply><power/><ci>x</ci><apply><log/><logbase><ci>b</ci></logbase><ci>y</ci></apply></apply></apply>\n"
+    "  <apply><eq/><ci>p2</ci><apply><power/><apply><minus/><ci>x</ci><ci>b</ci></apply><cn cellml:units=\"dimensionless\">2</cn></apply></apply>\n"
+    "  <apply><eq/><ci>p3</ci><apply><power/><ci>x</ci><cn cellml:units=\"dimensionless\">0.5</cn></apply></apply>\n"
+    "  <apply><eq/><ci>w1</ci><piecewise><piece><ci>x</ci><apply><gt/><ci>x</ci><ci>y</ci></apply></piece>"
+    "<piece><piecewise><piece><ci>b</ci><apply><lt/><ci>b</ci><ci>y</ci></apply></piece><otherwise><ci>y</ci></otherwise></piecewise><apply><eq/><ci>x</ci><ci>b</ci></apply></piece>"
+    "<otherwise><apply><root/><degree><ci>b</ci></degree><ci>y</ci></apply></otherwise></piecewise></apply>\n"
+    "  <apply><eq/><ci>m1</ci><apply><min/><ci>x</ci><ci>y</ci><ci>b</ci></apply></apply>\n"
+    "  <apply><eq/><ci>m2</ci><apply><max/><ci>x</ci><apply><min/><ci>y</ci><ci>b</ci></apply></apply></apply>\n"
+    "</math>";
 const std::string MATH_INV =
     "<math xmlns=\"http://www.w3.org/1998/Math/MathML\">\n"
     "      <apply><eq/>\n"
@@ -264,10 +285,10 @@ std::string docInvalid()
            "</model>\n";
 }
 
-enum Doc { D_WS, D_NOWS, D_RESETS, D_IMPORTS, D_V11, D_INVALID, ND, D_UNLINKED = ND, NM }; // D_UNLINKED: API-only model, no document
+enum Doc { D_WS, D_NOWS, D_RESETS, D_IMPORTS, D_V11, D_INVALID, ND, D_UNLINKED = ND, D_MATHX, NM }; // D_UNLINKED, D_MATHX: API-only models, no document
 const char *docName(int d)
 {
-    static const char *N[] = {"ws", "nows", "resets", "imports", "v11", "invalid", "unlinked"};
+    static const char *N[] = {"ws", "nows", "resets", "imports", "v11", "invalid", "unlinked", "mathx"};
     return N[d];
 }
 const std::string &docText(int d)
@@ -386,6 +407,25 @@ ModelPtr buildApi(int d)
         c->setMath(MATH_INV + "\n");
         return m;
     }
+    case D_MATHX: {
+        auto m = Model::create("m_mathx");
+        auto c = Component::create("c");
+        m->addComponent(c);
+        auto mk = [&](const char *n, const char *u, const char *iv) {
+            auto v = Variable::create(n);
+            v->setUnits(std::string(u));
+            if (*iv) v->setInitialValue(std::string(iv));
+            c->addVariable(v);
+        };
+        mk("t", "dimensionless", "");
+        mk("z", "dimensionless", "0");
+        mk("x", "dimensionless", "100");
+        mk("y", "dimensionless", "8");
+        mk("b", "dimensionless", "3");
+        for (const char *n : {"r1", "r2", "r3", "r4", "l1", "l2", "p1", "p2", "p3", "w1", "m1", "m2"}) mk(n, "dimensionless", "");
+        c->setMath(MATH_X + "\n");
+        return m;
+    }
     case D_UNLINKED: {
         // valid by name, but one variable uses a Units object that is not the model's own: Model::hasUnlinkedUnits()
         auto m = buildApi(D_WS);
@@ -448,6 +488,19 @@ std::string avDump(const AnalyserVariablePtr &v)
     auto iv = v->initialisingVariable();
     return AnalyserVariable::typeAsString(v->type()) + "#" + std::to_string(v->index()) + ":" + varRef(v->variable()) + (iv ? " init-by " + varRef(iv) : std::string("")) + " eqs=" + std::to_string(v->equationCount());
 }
+// full AST with the consistency of the structural links: for every node child->parent() == node, root parent null.
+// Purely observational (getters only): Generator::equationCode is NOT used here, it is a library call under test.
+std::string astDump(const AnalyserEquationAstPtr &n, const AnalyserEquationAstPtr &expectedParent, int depth = 0)
+{
+    if (!n) return "-";
+    std::string s = "(" + AnalyserEquationAst::typeAsString(n->type());
+    if (!n->value().empty()) s += " value=" + q(n->value());
+    if (n->variable()) s += " var=" + varRef(n->variable());
+    auto p = n->parent();
+    if (p != expectedParent) s += p ? " !PARENT-IS-ANOTHER-NODE(" + AnalyserEquationAst::typeAsString(p->type()) + ")" : std::string(" !PARENT-IS-NULL");
+    if (depth < 200 && (n->leftChild() || n->rightChild())) s += " " + astDump(n->leftChild(), n, depth + 1) + " " + astDump(n->rightChild(), n, depth + 1);
+    return s + ")";
+}
 std::string amDump(const AnalyserModelPtr &am)
 {
     if (!am) return "<null-analyser-model>";
@@ -458,7 +511,7 @@ std::string amDump(const AnalyserModelPtr &am)
     for (size_t i = 0; i < am->equationCount(); ++i) {
         auto e = am->equation(i);
         s += " equation " + AnalyserEquation::typeAsString(e->type()) + " srb=" + std::to_string(e->isStateRateBased()) + " deps=" + std::to_string(e->dependencyCount()) + " nla=" + std::to_string(e->nlaSystemIndex() == SIZE_MAX ? -1 : long(e->nlaSystemIndex()))
-             + " vars=" + std::to_string(e->variableCount()) + " code=" + Generator::equationCode(e->ast()) + "\n";
+             + " vars=" + std::to_string(e->variableCount()) + " ast=" + astDump(e->ast(), nullptr) + "\n";
     }
     s += std::string(" need:") + (am->needEqFunction() ? "eq" : "") + (am->needGtFunction() ? "gt" : "") + (am->needAndFunction() ? "and" : "") + (am->needMinFunction() ? "min" : "") + (am->needSecFunction() ? "sec" : "") + "\n";
     return s;
@@ -474,7 +527,7 @@ std::vector<VariablePtr> amVariables(const AnalyserModelPtr &am)
 }
 
 // =================================================================== the operation alphabet
-enum Kind { PARSE, PRINT, PRINT_AUTO, VALIDATE, ANALYSE, GEN_C, GEN_PY, RESOLVE, FLATTEN, ANNOTATE, SCALING, ISDEFINED };
+enum Kind { PARSE, PRINT, PRINT_AUTO, VALIDATE, ANALYSE, GEN_C, GEN_PY, GEN_POW, RESOLVE, FLATTEN, ANNOTATE, SCALING, ISDEFINED };
 struct OpDef
 {
     Kind k;
@@ -494,8 +547,9 @@ const std::vector<OpDef> &sigma()
         S.push_back({ANALYSE, D_WS, true, "analyse(ws)"});
         S.push_back({ANALYSE, D_INVALID, true, "analyse(invalid)"});
         S.push_back({ANALYSE, D_UNLINKED, true, "analyse(unlinked)"});
-        S.push_back({GEN_C, D_WS, true, "generateC(ws)"});
-        S.push_back({GEN_PY, D_WS, true, "generatePython(ws)"});
+        S.push_back({GEN_C, D_MATHX, true, "generateC(mathx)"});
+        S.push_back({GEN_PY, D_MATHX, true, "generatePython(mathx)"});
+        S.push_back({GEN_POW, D_MATHX, true, "generatePowerOperatorProfile(mathx)"});
         S.push_back({RESOLVE, D_IMPORTS, true, "resolve(imports)"});
         S.push_back({FLATTEN, D_IMPORTS, true, "flatten(imports)"});
         S.push_back({ANNOTATE, D_NOWS, true, "annotator.assignAllIds(nows)"});
@@ -507,10 +561,11 @@ const std::vector<OpDef> &sigma()
 int NOPS() { return int(sigma().size()); }
 const char *kindName(Kind k)
 {
-    static const char *N[] = {"parse", "print", "print_autoIds", "validate", "analyse", "generateC", "generatePython", "resolve", "flatten", "annotate", "scalingFactor", "isDefined"};
+    static const char *N[] = {"parse", "print", "print_autoIds", "validate", "analyse", "generateC", "generatePython", "generatePowerOperatorProfile", "resolve", "flatten", "annotate", "scalingFactor", "isDefined"};
     return N[k];
 }
 
+json diffExcerpt(const std::string &a, const std::string &b);
 struct Finding
 {
     std::string sig;
@@ -636,24 +691,35 @@ struct World
             holdIssues(analyser, "analyser", o.name);
             break;
         }
-        case GEN_C: case GEN_PY: {
-            // own analysis on a fresh Analyser (keeps this probe independent of what the shared analyser last saw); shared Generator
-            // (the analysis is reused while the argument is the same object with the same content: the generator then works
-            // on an AnalyserModel that was returned earlier in the history)
+        case GEN_C: case GEN_PY: case GEN_POW: {
+            // The AnalyserModel comes from an own Analyser and is analysed ONCE per world (while the argument is the same
+            // object with the same content): every generate call of a history - C, Python, power-operator profile, in any
+            // order - works on the SAME held AnalyserModel, with the shared Generator. The held model is dumped (full ASTs
+            // with parent links) after every later operation.
             if (genArg != m || genArgContent != before) {
                 genAnalyser = Analyser::create();
                 genAnalyser->analyseModel(m);
                 logger(genAnalyser, "analyser");
                 genArg = m;
                 genArgContent = before;
+                auto held = genAnalyser->model();
+                hold(std::string("AnalyserModel(") + docName(o.doc) + ")-given-to-generator", o.name, [held] { return amDump(held); });
             }
             auto an = genAnalyser;
             auto am = an->model();
-            generator->setProfile(GeneratorProfile::create(o.k == GEN_C ? GeneratorProfile::Profile::C : GeneratorProfile::Profile::PYTHON));
+            auto profile = GeneratorProfile::create(o.k == GEN_PY ? GeneratorProfile::Profile::PYTHON : GeneratorProfile::Profile::C);
+            if (o.k == GEN_POW) {
+                profile->setHasPowerOperator(true);
+                profile->setPowerString("^^");
+            }
+            generator->setProfile(profile);
             generator->setModel(am);
             std::string amBefore = amDump(am);
-            obs = "INTERFACE\n" + generator->interfaceCode() + "\nIMPLEMENTATION\n" + generator->implementationCode() + "\n" + issuesDump(an);
-            if (amDump(am) != amBefore) out.push_back({"input-mutated:AnalyserModel:by:" + o.name, json::object()});
+            obs = "INTERFACE\n" + generator->interfaceCode() + "\nIMPLEMENTATION\n" + generator->implementationCode() + "\nEQUATIONS\n";
+            for (size_t i = 0; i < am->equationCount(); ++i) obs += Generator::equationCode(am->equation(i)->ast(), profile) + "\n";
+            obs += issuesDump(an);
+            std::string amAfter = amDump(am);
+            if (amAfter != amBefore) out.push_back({"input-mutated:AnalyserModel:by:" + o.name, diffExcerpt(amBefore, amAfter)});
             break;
         }
         case RESOLVE: {
